@@ -82,6 +82,8 @@ VALUE_OPS = {
     "number_two_dots_in_range": "as.constant 1.0 >1.5.5 as.zero",
     "number_overflows": "as.buck 1e999 0.3 32.0",
     "number_overflows_negative": "as.polynomial 1.0 -1E+400",
+    "number_glued_to_signed_number": "as.buck 1000.0 0.3-32.0",
+    "number_glued_plus": "as.polynomial 1.0 2+3",
     "trans_second_has_ranges": "trans(as.buck 1000.0 0.3 32.0, as.constant 1.0 >=1.5 as.constant 2.0)",
     "number_huge_integer": "as.constant 1" + "0" * 400,
     "number_other_script_digits": "as.constant \u0661\u0662",
@@ -94,7 +96,7 @@ OTHER_OPS = [
     "pair_key_no_dash", "pair_key_three_species", "pair_key_empty_species", "missing_pair_section",
     "fs_key_without_arrow", "fs_key_two_arrows", "fs_key_empty_species", "species_key_empty_label",
     "formula_signature_trailing_text", "number_with_underscore", "placeholder_unresolvable_in_unread_entry",
-    "grid_other_script_digits", "grid_blank_value", "species_malformed_in_pair_model", "formula_unused_unparsable", "formula_label_is_language_function",
+    "grid_other_script_digits", "grid_blank_value", "grid_derived_not_finite", "species_not_finite", "species_malformed_in_pair_model", "formula_unused_unparsable", "formula_label_is_language_function",
     "table_named_like_pymath_function", "missing_embed_section", "missing_density_section",
     "species_without_data", "species_data_removed", "species_key_without_dot", "species_mass_not_number", "species_number_not_integer",
     "custom_wrong_arity", "table_form_with_params", "formula_bad_signature", "formula_signature_no_paren",
@@ -121,7 +123,7 @@ def _case(draw, op, light=False):
     if op in ("fs_key_without_arrow", "fs_key_two_arrows", "fs_key_empty_species"):
         targets = ["setfl_fs", "DL_POLY_EAM_fs", "excel_eam_fs"]
     elif op in ("missing_embed_section", "missing_density_section", "species_without_data", "species_mass_not_number",
-                "species_number_not_integer", "species_key_without_dot", "species_data_removed", "species_key_empty_label"):
+                "species_number_not_integer", "species_key_without_dot", "species_data_removed", "species_key_empty_label", "species_not_finite"):
         targets = sorted(gen.EAM_TARGETS)
     elif op == "dlpoly_nr_not_multiple_of_4":
         targets = ["DLPOLY", "DL_POLY"]
@@ -264,6 +266,24 @@ def mutate(case):
         settab(["nr", "cutoff", "dr"][site % 3], ["0", "0.0"][site % 2] if site % 3 else "0")
     elif op == "grid_nr_not_integer":
         settab("nr", "10.5")
+    elif op == "grid_derived_not_finite":
+        # the values given are finite, what follows from them is not
+        deltab("nr"), deltab("dr"), deltab("cutoff")
+        if site % 3 == 0:
+            settab("cutoff", "10"), settab("dr", "1e-320")
+        elif site % 3 == 1:
+            settab("nr", "3"), settab("dr", "1e308")
+        else:
+            settab("cutoff", "1e308"), settab("dr", "1e-10")
+    elif op == "species_not_finite":
+        sp = _sec(secs, "Species")
+        if sp is None:
+            sp = ["Species", []]
+            secs.append(sp)
+        el = m["elements"][site % len(m["elements"])]
+        key = "%s.%s" % (el, ["atomic_mass", "lattice_constant", "atomic_mass"][site % 3])
+        sp[1][:] = [e for e in sp[1] if "".join(e[0].split()) != key]
+        sp[1].append([key, ["nan", "inf", "-inf", "NaN"][site % 4]])
     elif op == "grid_blank_value":
         # an option that is present with an empty value is not an absent option: there is nothing to convert
         key = ["nr", "cutoff", "target", "nr", "cutoff"][site % 5]
